@@ -154,7 +154,12 @@ def verify_cases(rng, res, n, base=None):
             if hooks:
                 c07.apply_hooks(scn, ch, hooks, rng)
             scn.now = __import__("datetime").datetime.now(__import__("datetime").timezone.utc)
-            lib = scn.run_impl(root=root)          # library outcome on the same world (real clock)
+            if fam in ("c02", "c05", "c08"):      # (worlds without inspection commands: nothing depends on the time limit)
+                # the operation's outcome is the MODEL's (a library call that succeeds where the model refuses - say by
+                # stepping over a link file that cannot be loaded - would otherwise pass as "status follows the library")
+                lib, _m, _a = vcommon.run_case(scn, dict(desc, front_end_family=fam), res, True)
+            else:
+                lib = scn.run_impl(root=root)          # library outcome on the same world (real clock)
             outcome = "success" if vcommon.accepted(lib) else ("load" if lib.get("load") != "ok" else "fail")
             scn.materialise(root)
             supplied = [k for k in W.pool() if k.keyid in scn.keys]      # the verifier's keys of this scenario
@@ -689,6 +694,8 @@ def run(tier, seed):
 
 
 def replay(case):
+    if "model_request" in case:
+        return vcommon.replay(case)
     return {"note": "invocations are regenerated from the seed", "case": case,
             "model_status": model_status(case["tool"], case["outcome"])}
 
